@@ -65,9 +65,15 @@ def _line_strategy():
 
 
 def exhaustive(tier, shard, nshards):
-    if tier != 'thorough':
-        return
     idx = 0
+    if tier != 'thorough':
+        # every landing index of the one-shot process worker (returning and raising target)
+        for sc in ('quick_return', 'raise_own'):
+            for k in range(0, 110):
+                idx += 1
+                if idx % nshards == shard:
+                    yield {'kind': 'process', 'scenario': sc, 'inject': {'mode': 'terminate', 'n_index': k}}
+        return
     for kind in IC.ONE_SHOT:
         for k in range(0, 260):
             idx += 1
@@ -182,6 +188,11 @@ def run_case(case, ctx):
         own = any(he == o[0] and res == o[1] and err == o[2] for o in owns)
         if not terminated and not own:
             out.viol('outcome_neither_terminated_nor_own', site, f'(has_error, result, error) = {got!r}')
+        if inj['mode'] == 'terminate_now' and kind in ('p_thread', 'p_process') and not case.get('close') and not terminated \
+                and 'POISON' not in case.get('items', []):
+            # an idle (not closed) persistent worker has not finished on its own; for these two kinds the request is injected
+            # before the child is released, so the terminated shape is the only possible outcome
+            out.viol('idle_worker_terminate_not_reported', site, f'terminate() on an idle persistent worker ended with {got!r}')
         if obs.get('delivered') and in_try_body:
             if not terminated:
                 out.viol('delivered_in_target_but_not_reported', site, f'exception delivered inside the target try body, outcome {got!r}')
